@@ -11,6 +11,7 @@ import (
 	"fmt"
 	"sort"
 
+	"github.com/cosmos/cosmos-sdk/crypto/keys/secp256k1"
 	"github.com/cosmos/cosmos-sdk/simapp"
 	sdk "github.com/cosmos/cosmos-sdk/types"
 	authtypes "github.com/cosmos/cosmos-sdk/x/auth/types"
@@ -38,13 +39,15 @@ type Cast struct {
 	Names []string
 	Addr  map[string]sdk.AccAddress
 	Name  map[string]string // bech32 -> name
+	Priv  map[string]*secp256k1.PrivKey
 }
 
 func newCast() *Cast {
-	c := &Cast{Names: castNames, Addr: map[string]sdk.AccAddress{}, Name: map[string]string{}}
+	c := &Cast{Names: castNames, Addr: map[string]sdk.AccAddress{}, Name: map[string]string{}, Priv: map[string]*secp256k1.PrivKey{}}
 	for _, n := range castNames {
-		h := sha256.Sum256([]byte("verif-cast-" + n))
-		a := sdk.AccAddress(h[:20])
+		pk := secp256k1.GenPrivKeyFromSecret([]byte("verif-cast-" + n))
+		a := sdk.AccAddress(pk.PubKey().Address())
+		c.Priv[n] = pk
 		c.Addr[n] = a
 		c.Name[a.String()] = n
 	}
@@ -114,7 +117,7 @@ func NewWorld(gp GenesisParams) *World {
 	if err != nil {
 		panic(err)
 	}
-	a.InitChain(abci.RequestInitChain{Validators: []abci.ValidatorUpdate{}, AppStateBytes: state})
+	a.InitChain(abci.RequestInitChain{ChainId: "verif", Validators: []abci.ValidatorUpdate{}, AppStateBytes: state})
 	a.Commit()
 
 	w := &World{App: a, Cast: cast, GP: gp, keys: map[string]sdk.StoreKey{}}
@@ -298,6 +301,17 @@ func (w *World) Dump(st State) *Dump {
 func (w *World) OthersHash(st State) [32]byte {
 	h := sha256.New()
 	for _, kv := range w.dumpStores(st, w.others) {
+		if kv.Store == "acc" {
+			// the auth store legitimately changes when a module account is created lazily on the first
+			// deposit (new account record + global account number); the records of the cast must not change
+			isCast := false
+			if len(kv.Key) == 21 && kv.Key[0] == 0x01 {
+				_, isCast = w.Cast.Name[sdk.AccAddress(kv.Key[1:]).String()]
+			}
+			if !isCast {
+				continue
+			}
+		}
 		writeLP(h, []byte(kv.Store))
 		writeLP(h, kv.Key)
 		writeLP(h, kv.Val)
